@@ -1194,6 +1194,32 @@ def _x_moveaxis(args, kw):
     return moveaxis(lift(args[0]), args[1], args[2])
 
 
+def _x_swapaxes(args, kw):
+    a = lift(args[0])
+    i, j = int(_as_int(args[1])) % a.ndim, int(_as_int(args[2])) % a.ndim
+    axes = list(range(a.ndim))
+    axes[i], axes[j] = axes[j], axes[i]
+    return transpose(a, tuple(axes))
+
+
+def _x_repeat(args, kw):
+    """np.repeat of a concrete array with an integer count (flattened when no axis is given, as numpy does)"""
+    a = lift(args[0])
+    reps = _as_int(kw.get("repeats", args[1] if len(args) > 1 else None))
+    axis = kw.get("axis", args[2] if len(args) > 2 else None)
+    if a.sp or a.trail or not isinstance(reps, int):
+        raise AnalysisError("np.repeat on a symbolic-dimension array or with a non-integer count")
+    if axis is None:
+        return NdArr((len(a.data) * reps,), [v for v in a.data for _ in range(reps)])
+    axis = int(_as_int(axis)) % len(a.shape)
+    shape = a.shape[:axis] + (a.shape[axis] * reps,) + a.shape[axis + 1 :]
+    data = []
+    for ix in itertools.product(*[range(n) for n in shape]):
+        src = ix[:axis] + (ix[axis] // reps,) + ix[axis + 1 :]
+        data.append(a.data[_flat_index(a.shape, src)])
+    return NdArr(shape, data)
+
+
 def _x_take(args, kw):
     a = lift(args[0])
     i = kw.get("indices", args[1] if len(args) > 1 else None)
@@ -1600,6 +1626,8 @@ ARR_EXT.update(
         "np.asarray": _x_asarray,
         "np.array": _x_asarray,
         "np.transpose": _x_transpose,
+        "np.swapaxes": _x_swapaxes,
+        "np.repeat": _x_repeat,
         "np.reshape": _x_reshape,
         "np.squeeze": _x_squeeze,
         "np.expand_dims": _x_expand,
